@@ -1,5 +1,6 @@
 import StepModel.GenPy
 import StepModel.GenPyBody
+import StepModel.GenPyStmt
 /-! Driver for the exp2python emission model.  `m_c18 model` prints what exp2python emits (as modelled), `m_c18 spec`
 what the property asks for.  Input: schemas as blocks of lines
 
@@ -175,6 +176,62 @@ def reply (useSpec : Bool) (kind label ints bools envs : String) (toks : List St
         else (match pyEval inst p with | some v => showV v | none => "!raise"))
       pure s!"ast={(dump false p).replace " " "_"} name={nm} values={";".intercalate vals}"
 
+/-! ### `func` lines: a FUNCTION body of the statement fragment
+
+    func PARAMS|- ARGS;ARGS;… TOKENS…     (PARAMS `x,y`; ARGS `3,4`; TOKENS: prefix form
+                                            nop | seq A B | asg X EXPR | if EXPR A B | rep I EXPR EXPR S BODY | skip | esc | ret EXPR)
+reply `values=v;v;…` — model: what the Python statements `Stmt.tr` gives return under `Stmt.pyExec`; spec: `Spec.Stmt.exec`;
+`!none` when the run does not end in a RETURN (or is stuck / out of fuel). -/
+open StepModel.GenPy.Stmt in
+def parseStmt : Nat → List String → Option (Stmt × List String)
+  | 0, _ => none
+  | _ + 1, "nop" :: rest => some (.nop, rest)
+  | _ + 1, "skip" :: rest => some (.skip, rest)
+  | _ + 1, "esc" :: rest => some (.escape, rest)
+  | f + 1, "seq" :: rest => do
+    let (a, r1) ← parseStmt f rest
+    let (b, r2) ← parseStmt f r1
+    pure (.seq a b, r2)
+  | f + 1, "asg" :: x :: rest => do
+    let (e, r) ← parseExpr f rest
+    pure (.assign x e, r)
+  | f + 1, "ret" :: rest => do
+    let (e, r) ← parseExpr f rest
+    pure (.ret e, r)
+  | f + 1, "if" :: rest => do
+    let (c, r1) ← parseExpr f rest
+    let (t, r2) ← parseStmt f r1
+    let (e, r3) ← parseStmt f r2
+    pure (.ite c t e, r3)
+  | f + 1, "rep" :: i :: rest => do
+    let (a, r1) ← parseExpr f rest
+    let (b, r2) ← parseExpr f r1
+    match r2 with
+    | st :: r3 => do
+      let st ← st.toInt?
+      let (body, r4) ← parseStmt f r3
+      pure (.repeatInc i a b st body, r4)
+    | [] => none
+  | _, _ => none
+
+def funcReply (useSpec : Bool) (params args : String) (toks : List String) : Option String := do
+  let (s, rest) ← parseStmt (toks.length + 1) toks
+  if !rest.isEmpty then none
+  let ps := names params
+  let rows ← (args.splitOn ";").mapM (fun row => (if row = "-" then some [] else (row.splitOn ",").mapM parseV))
+  let envs ← rows.mapM (fun row => if row.length = ps.length then some (ps.zip row) else none)
+  let fuel := 4000
+  let show1 := fun (r : Option (StepModel.GenPy.Stmt.Env × StepModel.GenPy.Stmt.Out)) =>
+    match r with
+    | some (_, .returned v) => showV v
+    | _ => "!none"
+  let vals := envs.map (fun env =>
+    if useSpec then show1 (StepModel.GenPy.Spec.Stmt.exec fuel env s)
+    else match StepModel.GenPy.Stmt.tr s with
+      | some p => show1 (StepModel.GenPy.Stmt.pyExec fuel (instanceOf env) p)
+      | none => "!syntax")
+  pure ("values=" ++ ";".intercalate vals)
+
 end BodyDrv
 
 partial def loop (useSpec : Bool) (h : IO.FS.Stream) (out : IO.FS.Stream) (cur : Option Schema) (bad : Bool) : IO Unit := do
@@ -190,6 +247,9 @@ partial def loop (useSpec : Bool) (h : IO.FS.Stream) (out : IO.FS.Stream) (cur :
                 else StepModel.GenPy.Body.pyRange 64 a (StepModel.GenPy.Body.stopWritten b st) st
       out.putStrLn ("values=" ++ ",".intercalate (vs.map toString))
     | _, _, _ => out.putStrLn "bad-op"
+    loop useSpec h out cur bad
+  | "func" :: params :: args :: toks =>
+    out.putStrLn ((BodyDrv.funcReply useSpec params args toks).getD "bad-op")
     loop useSpec h out cur bad
   | "expr" :: kind :: label :: ints :: bools :: envs :: toks =>
     out.putStrLn ((BodyDrv.reply useSpec kind label ints bools envs toks).getD "bad-op")
